@@ -120,9 +120,9 @@ def check(prog, run):
                               p2.rel(p2.module(home)), None)
     run.count("module_loads", sum(len(p.modules) for p in progs.values()))
     # (c) device constructors and init_device
-    strings = {"sgio": ["/dev/sg1", "/dev/", "/dev/bsg/0:0:0:0", "/dev/disk/by-id/scsi-3600 a@b"],
+    strings = {"sgio": ["/dev/sg1", "/dev/", "/dev/bsg/0:0:0:0", "/dev/disk/by-id/scsi-3600 a@b", "/dev/SG_Mixed/Case"],
                "iscsi": ["iscsi://host/iqn.x/0", "iscsi://user%secret@10.0.0.1:3260/iqn.2003-01.org.example:disk0/2",
-                         "iscsi://[fe80::1]:3260/iqn.x/0"], "other": ["foo", "", "/devx/sg1", "ISCSI://h/t/0", "iscsi:/h"]}
+                         "iscsi://[fe80::1]:3260/iqn.x/0", "iscsi://Admin%PassWord@Host.Example.ORG/iqn.2003-01.org.Example:Disk0/2"], "other": ["foo", "", "/devx/sg1", "ISCSI://h/t/0", "iscsi:/h"]}
     for missing, p2 in progs.items():
         I2 = p2.I
         label = "missing=%s" % (",".join(missing) or "none")
